@@ -660,6 +660,22 @@ def corpus(kind):
     return out
 
 
+def axioms_of(log):
+    """every axiom name Print Assumptions printed (vlib.parse_assumptions misses names whose type is on the next line)"""
+    import re
+    names, on = set(), False
+    for l in log.split("\n"):
+        if l.startswith("Axioms:"):
+            on = True
+        elif l.startswith("Closed under") or l.startswith("File "):
+            on = False
+        elif on:
+            m = re.match(r"^([A-Za-z_][\w']*(?:\.[A-Za-z_][\w']*)+)\b", l)
+            if m:
+                names.add(m.group(1))
+    return sorted(names)
+
+
 # ------------------------------------------------------------------ the check
 def run(ck):
     big = ck.tier == "thorough"
@@ -673,6 +689,7 @@ def run(ck):
     forb = vlib.coq_forbidden_scan()
     ck.extra["forbidden_tokens"] = forb
     ck.extra["translator"] = {k: v for k, v in tr.items() if k not in ("pairs", "file")}
+    ck.extra["axioms"] = axioms_of(res["log"])
     vlib.build_modelrun("c06")
     ck.cov["trusted_base"] = [
         "Coq 8.16.1 kernel + vm_compute; Flocq 4.1.0 (IEEE754.Binary, Bits) as the definition of binary32/binary64 arithmetic",
@@ -688,7 +705,7 @@ def run(ck):
         "int narrowing / double->float overflow are compared model-vs-library only)",
         "NaN payloads: model, library and oracle agree bit for bit on this hardware; the oracle comparison accepts any NaN for a NaN",
         "rank-1 arrays in the model and at API level (multi-dimensional hyperslabs are C05's subject)",
-        "Coq axioms (all from Flocq / the real numbers of the standard library): " + ", ".join(res["assumptions"]["axioms"] or ["none reported"]),
+        "Coq axioms printed by Print Assumptions (all from Flocq / the real numbers of the standard library): " + ", ".join(axioms_of(res["log"]) or ["none"]),
         "malloc never fails; 64-bit build (cgsize_t = I8); CG_BUILD_COMPLEX_C99_EXT as configured by the build under test",
     ]
     ck.cov["rule"] = ("conv level: all 49 ordered pairs x boundary-rich bit patterns (all 256 chars; powers of two +-1, type limits, "
